@@ -30,6 +30,10 @@ func (x *Exec) funcVarCall(f *frame, in ssa.Instruction, c *ssa.CallCommon, args
 				x.assumed[fmt.Sprintf("%s: calls through the function value in field %q have no effect on the modelled state", x.short, fname)] = true
 				return Val{}, true
 			}
+			if pf == fname && c.Signature().Results().Len() > 1 {
+				x.assumed[fmt.Sprintf("%s: calls through the function value in field %q are effect-free on the modelled state (arbitrary results)", x.short, fname)] = true
+				return x.resultVal(st, c.Signature(), "fv_"+fname), true
+			}
 			if pf == fname && c.Signature().Results().Len() == 1 {
 				rt := c.Signature().Results().At(0).Type()
 				r := x.havocValue(st, rt, "fv_"+fname)
@@ -66,7 +70,7 @@ func (x *Exec) funcVarCall(f *frame, in ssa.Instruction, c *ssa.CallCommon, args
 			x.assumed[fmt.Sprintf("extern %s (package variable bound to rand.Float64): any value in [0,1)", g.Name())] = true
 			return x.randFloat64(st), true
 		}
-		if sig.Params().Len() == 2 && rt.String() == "*time.Timer" && sig.Params().At(0).Type().String() == "time.Duration" {
+		if sig.Params().Len() == 2 && (rt.String() == "*time.Timer" || strings.HasSuffix(g.Name(), "AfterFunc")) && sig.Params().At(0).Type().String() == "time.Duration" {
 			x.assumed[fmt.Sprintf("extern %s (package variable bound to time.AfterFunc): registers a callback, no synchronous effect on modelled state", g.Name())] = true
 			return Val{T: x.havocValue(st, rt, "timer")}, true
 		}
